@@ -125,7 +125,15 @@ func VC_C09_boxing() {
 // is delivered unaltered under the declared type.
 func VC_C09_standin() {
 	a, b := verifInt("a"), verifInt("b")
-	switch verifChoice("case", 2) {
+	switch verifChoice("case", 3) {
+	case 2:
+		// a typed nil stand-in pointer is a nil pointer of the declared type
+		v, rej, _ := vOne((*vS2)(nil), vTypeOf((*vS1)(nil)))
+		verifAssert(!rej, "C09.standin.nil-ptr-accepted")
+		if !rej {
+			verifAssert(v.Type() == vTypeOf((*vS1)(nil)), "C09.standin.nil-ptr-retyped")
+			verifAssert(v.IsNil(), "C09.standin.nil-ptr-stays-nil")
+		}
 	case 0:
 		v, rej, _ := vOne(vS2{X: a, Y: b}, vTypeOf(vS1{}))
 		verifAssert(!rej, "C09.standin.struct-accepted")
@@ -146,6 +154,38 @@ func VC_C09_standin() {
 		}
 	}
 	verifReached("C09.standin")
+}
+
+type vP1 struct{ p *vS1 }         // one pointer-shaped word: stored directly in interfaces
+type vP2 struct{ q *vS1 }         // identical layout
+type vP3 struct{ w [1]*vS1 }      // same again, through a one-element array
+
+// VC_C09_standin_pointer_word: stand-in structs whose whole layout is one pointer word
+// (reflect keeps those directly in the value's data word, not behind it).
+func VC_C09_standin_pointer_word() {
+	a, b := verifInt("a"), verifInt("b")
+	tgt := &vS1{A: a, B: b}
+	var v reflect.Value
+	var rej bool
+	switch verifChoice("case", 3) {
+	case 0:
+		v, rej, _ = vOne(vP2{q: tgt}, vTypeOf(vP1{}))
+	case 1:
+		v, rej, _ = vOne(vP3{w: [1]*vS1{tgt}}, vTypeOf(vP1{}))
+	case 2:
+		v, rej, _ = vOne(vP2{q: nil}, vTypeOf(vP1{}))
+		tgt = nil
+	}
+	verifAssert(!rej, "C09.standin-word.accepted")
+	if !rej {
+		verifAssert(v.Type() == vTypeOf(vP1{}), "C09.standin-word.retyped")
+		got := v.Interface().(vP1)
+		verifAssert(got.p == tgt, "C09.standin-word.same-pointer")
+		if tgt != nil && got.p != nil {
+			verifAssert(got.p.A == a && got.p.B == b, "C09.standin-word.pointee-untouched")
+		}
+	}
+	verifReached("C09.standin-word")
 }
 
 // VC_C09_size_mismatch: a value whose size differs from the declared type is rejected
